@@ -5,6 +5,7 @@ package main
 import (
 	"errors"
 	"fmt"
+	"sort"
 	"strings"
 	"sync"
 	"time"
@@ -38,6 +39,19 @@ type world struct {
 	events []string
 	allow  string
 	edit   string
+
+	// history mode: every PluginMessageEvent subscriber reports that it started (with the Data() slice
+	// it keeps) and then waits to be released
+	hist    bool
+	started chan *held
+}
+
+// held is one subscriber invocation parked inside its handler, keeping the slice Data() returned.
+type held struct {
+	data    []byte
+	first   string
+	release chan struct{}
+	done    chan struct{}
 }
 
 func newWorld() *world {
@@ -53,6 +67,21 @@ func newWorld() *world {
 	}
 	px.ChannelRegistrar().Register(id)
 	event.Subscribe(wd.mgr, 0, func(e *proxy.PluginMessageEvent) {
+		wd.mu.Lock()
+		hist := wd.hist
+		wd.mu.Unlock()
+		if hist {
+			d := e.Data()
+			h := &held{data: d, first: hx.Hex(d), release: make(chan struct{}), done: make(chan struct{})}
+			wd.started <- h
+			<-h.release
+			wd.mu.Lock()
+			wd.events = append(wd.events, "P:"+h.first+"/"+hx.Hex(d)) // looked at again after the whole history
+			wd.editAndAllow(e, d)
+			wd.mu.Unlock()
+			close(h.done)
+			return
+		}
 		wd.mu.Lock()
 		defer wd.mu.Unlock()
 		d := e.Data()
@@ -105,23 +134,8 @@ func list(xs []string) string {
 
 var errWrite = errors.New("write failed")
 
-// apply runs one case on the real handlers.
-func (wd *world) apply(site, cls string, data, raw []byte, allow, edit string, wok bool) string {
-	wd.mu.Lock()
-	wd.events, wd.allow, wd.edit = nil, allow, edit
-	wd.mu.Unlock()
-	wd.client.WriteErr, wd.backend.WriteErr = nil, nil
-	if !wok {
-		wd.client.WriteErr, wd.backend.WriteErr = errWrite, errWrite
-	}
-	cf, bf := wd.client.Len(), wd.backend.Len()
-	// the handler owns its buffers: hand it copies
-	wd.w.Handle(site, channelOf[cls], append([]byte(nil), data...), append([]byte(nil), raw...))
-	wd.mgr.Wait()
-	k := "o"
-	if !wok {
-		k = "x"
-	}
+// writes lists what was written to the backend and the client connection since the given log positions.
+func (wd *world) writes(k string, cf, bf int) []string {
 	var fw []string
 	for _, side := range []struct {
 		n string
@@ -145,6 +159,78 @@ func (wd *world) apply(site, cls string, data, raw []byte, allow, edit string, w
 			}
 		}
 	}
+	return fw
+}
+
+func (wd *world) editAndAllow(e *proxy.PluginMessageEvent, d []byte) {
+	switch wd.edit {
+	case "f":
+		if len(d) > 0 {
+			d[0] ^= 0xff
+		}
+	case "a":
+		for i := range d {
+			d[i] = 0xAA
+		}
+	}
+	switch wd.allow {
+	case "y":
+		e.SetForward(true)
+	case "n":
+		e.SetForward(false)
+	}
+}
+
+// history feeds several messages on the registered channel to one handler; each event's subscriber is
+// parked holding its Data() slice until ALL messages were handled, then they are released in order.
+func (wd *world) history(site string, bodies [][]byte, allow, edit string) string {
+	wd.mu.Lock()
+	wd.events, wd.allow, wd.edit, wd.hist = nil, allow, edit, true
+	wd.started = make(chan *held, len(bodies))
+	wd.mu.Unlock()
+	wd.client.WriteErr, wd.backend.WriteErr = nil, nil
+	cf, bf := wd.client.Len(), wd.backend.Len()
+	var hs []*held
+	for _, b := range bodies {
+		wd.w.Handle(site, knownChannel, append([]byte(nil), b...), []byte{0xEE})
+		select {
+		case h := <-wd.started:
+			hs = append(hs, h)
+		case <-time.After(5 * time.Second):
+		}
+	}
+	for _, h := range hs {
+		close(h.release)
+		<-h.done
+	}
+	wd.mgr.Wait()
+	wd.mu.Lock()
+	wd.hist = false
+	ev := list(wd.events)
+	wd.mu.Unlock()
+	fw := wd.writes("o", cf, bf)
+	sort.Strings(fw)
+	return "ev=" + ev + " fw=" + list(fw)
+}
+
+// apply runs one case on the real handlers.
+func (wd *world) apply(site, cls string, data, raw []byte, allow, edit string, wok bool) string {
+	wd.mu.Lock()
+	wd.events, wd.allow, wd.edit = nil, allow, edit
+	wd.mu.Unlock()
+	wd.client.WriteErr, wd.backend.WriteErr = nil, nil
+	if !wok {
+		wd.client.WriteErr, wd.backend.WriteErr = errWrite, errWrite
+	}
+	cf, bf := wd.client.Len(), wd.backend.Len()
+	// the handler owns its buffers: hand it copies
+	wd.w.Handle(site, channelOf[cls], append([]byte(nil), data...), append([]byte(nil), raw...))
+	wd.mgr.Wait()
+	k := "o"
+	if !wok {
+		k = "x"
+	}
+	fw := wd.writes(k, cf, bf)
 	wd.mu.Lock()
 	ev := list(wd.events)
 	wd.mu.Unlock()
@@ -223,6 +309,37 @@ func main() {
 	do("fixed", "ci", "reg", []byte("a:b"), []byte{0xEE}, "d", "n", true)
 	do("fixed", "cp", "unreg", []byte("a:b"), nil, "d", "n", true)
 	do("fixed", "cp", "known", nil, nil, "d", "f", true)
+
+	// ---- histories: several messages through one handler, subscribers keep Data() until the end ----
+	hist := func(class, site string, bodies [][]byte, allow, edit string) {
+		if n%500 == 499 {
+			wd = newWorld()
+		}
+		n++
+		hs := make([]string, len(bodies))
+		for i, b := range bodies {
+			hs[i] = hx.Hex(b)
+		}
+		op := fmt.Sprintf("hist %s %s %s %s", site, allow, edit, strings.Join(hs, ","))
+		cur := wd
+		out := hx.Guard(60*time.Second, func() string { return cur.history(site, bodies, allow, edit) })
+		run.Case(class, op, out)
+	}
+	// the witness of a reused event buffer: the second body must not show up in the first event
+	hist("fixed", "bp", [][]byte{[]byte("AAAAAAAA"), []byte("BBBBBBBB")}, "d", "n")
+	hist("fixed", "bc", [][]byte{[]byte("AAAAAAAA"), []byte("BBBBBBBB")}, "y", "a")
+	hist("fixed", "cp", [][]byte{[]byte("AAAAAAAA"), []byte("BBBB"), []byte("CCCCCCCCCCCC")}, "d", "f")
+	{
+		r := run.Rng
+		for i := 0; i < run.Scale(150, 3000); i++ {
+			k := 2 + r.Intn(4)
+			bodies := make([][]byte, k)
+			for j := range bodies {
+				bodies[j] = r.Bytes(1 + r.Intn(24)) // non-empty: "-" would read as an empty list element
+			}
+			hist("history", hx.Pick(r, sites), bodies, hx.Pick(r, allows), hx.Pick(r, edits))
+		}
+	}
 
 	// ---- the full table site × class × allow × edit × write outcome, with generated bodies ----
 	r := run.Rng
